@@ -2,6 +2,7 @@ package main
 
 import (
 	"fmt"
+	"strconv"
 	"go/types"
 	"strings"
 
@@ -34,6 +35,11 @@ func (e *Enc) call(in *ssa.Call, st *State) {
 			e.set(in, e.ufApply("iface."+c.Method.Pkg().Path()+"."+c.Method.Name(), append([]ssa.Value{c.Value}, c.Args...), in.Type()))
 			return
 		}
+		if key := ifaceMethodKey(c.Method); e.db.pureIface[key] {
+			e.note("interface method %s is assumed pure (uninterpreted function of receiver and arguments)", key)
+			e.set(in, e.ufApply("iface."+key, append([]ssa.Value{c.Value}, c.Args...), in.Type()))
+			return
+		}
 		if t := e.dynOf(c.Value); t != nil {
 			if callee, rv := e.devirtualize(t, c.Method, recv, st); callee != nil {
 				args := append([]ssa.Value{nil}, c.Args...)
@@ -63,6 +69,11 @@ func (e *Enc) call(in *ssa.Call, st *State) {
 			e.set(in, e.freshVal("purefield."+fld, in.Type()))
 			return
 		}
+		if lf := localClosure(c.Value); lf != nil {
+			e.applyEffect(st, e.effectOf(lf))
+			e.set(in, e.freshVal("localcall."+lf.Name(), in.Type()))
+			return
+		}
 		pre := st.clone()
 		e.havocAll(st)
 		e.set(in, e.freshVal("dyncall", in.Type()))
@@ -88,9 +99,7 @@ func (e *Enc) builtin(in *ssa.Call, b *ssa.Builtin, st *State) {
 		case *types.Basic:
 			e.set(in, &Val{typ: in.Type(), c: []string{app("slen", x.c[0])}})
 		default:
-			v := e.freshVal("len", in.Type())
-			e.assume(app(">=", v.c[0], "0"))
-			e.set(in, v)
+			e.set(in, e.mapLen(st, args[0].Type(), x))
 		}
 	case "cap":
 		x := e.val(args[0])
@@ -187,6 +196,7 @@ func (e *Enc) staticCallV(in *ssa.Call, callee *ssa.Function, args []ssa.Value, 
 			specDyn = dyn
 		}
 	}
+	asserted := false
 	if e.con != nil {
 		cn := fname(callee)
 		if pk := pkgPathOf(callee); pk != "" && !strings.HasPrefix(pk, "github.com/PapaCharlie") {
@@ -196,6 +206,7 @@ func (e *Enc) staticCallV(in *ssa.Call, callee *ssa.Function, args []ssa.Value, 
 		e.kindN["callsite:"+cn]++
 		for _, a := range e.con.Asserts {
 			if a.Callee == cn && a.Ordinal == ord {
+				asserted = true
 				vars := map[string]*Val{}
 				for k, v := range e.params {
 					vars[k] = v
@@ -213,6 +224,14 @@ func (e *Enc) staticCallV(in *ssa.Call, callee *ssa.Function, args []ssa.Value, 
 					o.Clause = a.C
 				}
 			}
+		}
+	}
+	if pk := pkgPathOf(callee); !strings.HasPrefix(pk, modRoot) {
+		full := pk + "." + callee.Name()
+		if (e.db.effectFns[full] || (e.db.effectPkgs[pk] && !e.db.observers[full])) && !asserted {
+			// an externally visible effect that no call-site contract accounts for
+			o := e.oblige("effect", full+":no-call-site-contract", in.Pos(), "false")
+			o.Owned = true
 		}
 	}
 	pre := st.clone()
@@ -261,7 +280,11 @@ func (e *Enc) staticCallV(in *ssa.Call, callee *ssa.Function, args []ssa.Value, 
 		e.applyEffect(st, e.effectOf(callee))
 	}
 	var res *Val
-	if pk := pkgPathOf(callee); ufPkgs[pk] && in.Type() != nil {
+	if pk := pkgPathOf(callee); pk == "path/filepath" && callee.Name() == "Join" && len(argv) == 1 {
+		res = e.joinUF(argv[0], st)
+	}
+	if res != nil {
+	} else if pk := pkgPathOf(callee); ufPkgs[pk] && in.Type() != nil {
 		res = e.ufTerm(pk+"."+callee.Name(), argv, in.Type())
 	} else {
 		res = e.freshVal("call."+callee.Name(), in.Type())
@@ -309,6 +332,20 @@ func (e *Enc) staticCallV(in *ssa.Call, callee *ssa.Function, args []ssa.Value, 
 			}
 		}
 	}
+}
+
+// ifaceMethodKey names an interface method by the interface that declares it: "restlicodec.KeyChecker.IsKeyExcluded".
+func ifaceMethodKey(m *types.Func) string {
+	sig, _ := m.Type().(*types.Signature)
+	if sig != nil && sig.Recv() != nil {
+		if n, ok := sig.Recv().Type().(*types.Named); ok {
+			return typeKey(n) + "." + m.Name()
+		}
+	}
+	if m.Pkg() != nil {
+		return m.Pkg().Name() + "." + m.Name()
+	}
+	return m.Name()
 }
 
 // callbackName: the parameter or captured variable a called function value stems from (seen through the cell that
@@ -455,4 +492,41 @@ func (e *Enc) devirtualize(t types.Type, m *types.Func, recv *Val, st *State) (*
 		return fn, &Val{typ: want, c: []string{ref}}
 	}
 	return nil, nil
+}
+
+// joinUF models filepath.Join(e0, ..., en-1) as an uninterpreted function of its n elements when the variadic slice
+// has a literal length (the usual call shape).
+func (e *Enc) joinUF(sl *Val, st *State) *Val {
+	n, err := strconv.Atoi(sl.c[2])
+	if err != nil || n < 1 || n > 4 {
+		return nil
+	}
+	var elems []*Val
+	tstr := types.Typ[types.String]
+	for i := 0; i < n; i++ {
+		elems = append(elems, e.loadAt(st, app("elem", sl.c[0], app("+", sl.c[1], num(int64(i)))), tstr))
+	}
+	return e.ufTerm(fmt.Sprintf("path/filepath.Join%d", n), elems, tstr)
+}
+
+// mapLen: len(m). For maps with a has/val model it is a function of the key set; for unmodelled maps (struct keys)
+// it is an uninterpreted function of the map reference and the heap epoch (any write to such a map starts a new epoch).
+func (e *Enc) mapLen(st *State, t types.Type, m *Val) *Val {
+	mi := mapInfoOf(t)
+	var term string
+	if mi.ok {
+		card := e.declareFun("card!"+mi.ksort, "((Array "+mi.ksort+" Bool)) Int")
+		term = ite(eq(m.c[0], "null"), "0", app(card, sel(e.marr(st, mi.hasN, mi.ksort, "Bool"), m.c[0])))
+		// card = 0 iff the key set is empty (the two facts the FUCs rely on)
+		empty := fmt.Sprintf("((as const (Array %s Bool)) false)", mi.ksort)
+		e.assume(eq(app(card, empty), "0"))
+		e.assume(imp(not(eq(m.c[0], "null")), eq(eq(app(card, sel(e.marr(st, mi.hasN, mi.ksort, "Bool"), m.c[0])), "0"), eq(sel(e.marr(st, mi.hasN, mi.ksort, "Bool"), m.c[0]), empty))))
+	} else {
+		f := e.declareFun("maplen!unmodelled", "(Ref Int) Int")
+		term = ite(eq(m.c[0], "null"), "0", app(f, m.c[0], num(int64(st.epoch))))
+	}
+	v := e.fresh("len", "Int")
+	e.assume(eq(v, term))
+	e.assume(app(">=", v, "0"))
+	return &Val{typ: tInt, c: []string{v}}
 }
